@@ -1225,8 +1225,24 @@ func checkSandboxedIncludeSetsFlag(w *World, r *Report) {
 	n := 0
 	instrsOf(inc, func(in ssa.Instruction) {
 		c, ok := in.(ssa.CallInstruction)
-		if !ok || !c.Common().IsInvoke() || c.Common().Method.Name() != "Render" {
+		if !ok {
 			return
+		}
+		if !c.Common().IsInvoke() || c.Common().Method.Name() != "Render" {
+			// … or a helper of the package that renders what it is handed (the template, its nodes)
+			g := c.Common().StaticCallee()
+			if g == nil || !isTwigFn(g) || len(g.Blocks) == 0 {
+				return
+			}
+			renders := false
+			for i, p := range g.Params {
+				if i < len(c.Common().Args) && rendersParam(g, p) {
+					renders = true
+				}
+			}
+			if !renders {
+				return
+			}
 		}
 		if _, isDefer := in.(*ssa.Defer); isDefer {
 			return
